@@ -844,3 +844,42 @@ package quickfix
 //@   ensures @hdr fmvals(msg.Header.FieldMap)
 //@   ensures @body fmvals(msg.Body.FieldMap)
 //@   ensures @trl fmvals(msg.Trailer.FieldMap)
+
+// repeating groups (memory safety only, C09). A group template is non-empty and holds no nil item (templates come
+// from generated code and the data dictionary). Assumed of every GroupItem: Tag is pure, Clone returns an item and
+// writes nothing that exists, Read needs one field, returns a usable slice and writes, besides the groups of
+// RepeatingGroups, only objects it creates.
+//@ spec rgt(t GroupTemplate) bool = len(t) >= 1 && valid(t) && forall i int :: 0 <= i && i < len(t) ==> t[i] != nil
+//@ iface GroupItem.Tag(recv)
+//@   pure
+//@ iface GroupItem.Clone(recv)
+//@   ensures @item result != nil
+//@   modifies fresh H.quickfix.RepeatingGroup.*, fresh E.quickfix.GroupItem
+//@ iface GroupItem.Read(recv, tv)
+//@   requires @one len(tv) >= 1
+//@   ensures @valid valid(result0)
+//@   modifies heap H.quickfix.RepeatingGroup.groups, heap E.*quickfix.Group, fresh H.quickfix.FieldMap.*, fresh E.quickfix.Tag, fresh H.quickfix.messageRejectError.*
+
+//@ func (f RepeatingGroup) findItemInGroupTemplate [C09]
+//@   requires rgt(f.template)
+//@   ensures @item result1 ==> result0 != nil
+
+//@ func (f RepeatingGroup) groupTagOrder [C09]
+//@   requires rgt(f.template)
+//@   ensures @fn result != nil
+
+//@ func (f RepeatingGroup) delimiter [C09]
+//@   requires rgt(f.template)
+//@   pure
+
+//@ func (f RepeatingGroup) isDelimiter [C09]
+//@   requires rgt(f.template)
+//@   pure
+
+//@ func (f *RepeatingGroup) Read [C09]
+//@   requires @one len(tv) >= 1 && valid(tv)
+//@   requires @templ rgt(f.template)
+//@   ensures @templ rgt(f.template)
+//@   loop 1 invariant @group group != nil && group.tagLookup != nil && group.rwLock != nil
+//@   loop 1 invariant @tv valid(tv)
+//@   loop 1 invariant @templ rgt(f.template)
